@@ -54,6 +54,8 @@ class P:
             return self.rx(r"b:(true|false)")
         if self.peek(2) == "n:":
             return self.rx(r"n:[0-9]+")
+        if self.peek(2) == "l:":
+            return self.rx(r"l:[0-9]+:[0-9]+e?")
         raise Bad("payload at %d: %r" % (self.i, self.s[self.i:self.i + 30]))
 
     def head(self):
@@ -134,14 +136,24 @@ class P:
             vtn, vflags, vpl = self.last_value
             if kind4 != "0100" or tn != vt:
                 raise Bad("item %s holds value %s with kind flags %s" % (tn, vt, kind4))
+            tl = [x for x in pl if x.startswith("l:")]
+            pl = [x for x in pl if not x.startswith("l:")]
+            if vt == "inline_table":
+                n = dump.count("=") if False else len(split_top(dump[1:-1]))
+                want = "l:%d:%d%s" % (n, n, "e" if n == 0 else "")
+                if tl != [want]:
+                    raise Bad("inline table with %d entries: TableLike::len / InlineTable::len / is_empty = %r" % (n, tl))
+            elif tl:
+                raise Bad("%s has a table-like length %r" % (vt, tl))
             if flags[5:] != vflags or pl != vpl:
                 raise Bad("Item downcasts (%s %r) differ from the value's own (%s %r)" % (flags[5:], pl, vflags, vpl))
             if (flags[4] == "1") != (vt == "inline_table"):
                 raise Bad("is_table_like = %s on a %s" % (flags[4], vt))
         elif self.peek(2) == "T{":
             self.i += 2
-            if kind4 != "0010" or tn != "table" or flags[4] != "1" or flags[5:] != "0000000" or pl:
+            if kind4 != "0010" or tn != "table" or flags[4] != "1" or flags[5:] != "0000000" or len(pl) != 1 or not pl[0].startswith("l:"):
                 raise Bad("table head %s %s %r" % (tn, flags, pl))
+            table_l = pl[0]
             entries = []
             while self.peek() != "}":
                 if entries:
@@ -152,6 +164,9 @@ class P:
                     raise Bad("Item::get(key) hands out a %s where iteration gave a %s" % (g, t))
                 entries.append("%s=%s" % (k, d))
             self.i += 1
+            n = len(entries)
+            if table_l != "l:%d:%d%s" % (n, n, "e" if n == 0 else ""):
+                raise Bad("table with %d entries: TableLike::len / Table::len / is_empty = %s" % (n, table_l))
             dump = "T{%s}" % ",".join(entries)
         elif self.peek(2) == "A[":
             self.i += 2
